@@ -120,6 +120,7 @@ def check(ctx):
     me = [e for e in he.src.succ if e.label and e.label[0] == 'cond' and e is not he][0]
     facts = {f.text: f for f in he.facts()}
     ctx.inst('R3', fcb, 'hit-requires-truthy-result', cvar in facts and facts[cvar].pol is True, 'a falsy cache result (None / unparsable / empty) must not be adopted')
+    cached_table_adoption_rule(ctx, 'R3')
     reqs = gf.find(lambda n: method_call(n, '_request_toc_element'))
     ctx.inst('R3', fcb, 'hit-requests-nothing', all(('e', he.id) not in gf.dom()[('n', n.id)] for n, _ in reqs), 'a cache hit must not request elements')
     miss_req = [n for n, _ in reqs if ('e', me.id) in gf.dom()[('n', n.id)]]
@@ -407,9 +408,16 @@ def cached_table_adoption_rule(ctx, rule):
     cvar = norm(adopt[0].ast.value)
     ok = fact_key(cvar, True) in gf.fact_keys_at(adopt[0])
     ctx.inst(rule, fcb, 'hit-requires-truthy-result', ok, 'a falsy cache result (None / unparsable / empty table) must not be adopted; guards %s' % sorted(gf.fact_keys_at(adopt[0])))
+    # the completion callback reads the table (extended elements, the walk over all parameters): on a hit the cached table has to be
+    # in place before the download is declared finished
+    fin = [n for n, _ in gf.find(lambda q: method_call(q, '_toc_fetch_finished'))]
+    late = [n for n in fin if gf.path_avoiding(n, [adopt[0]], avoid=[x for x in gf.nodes if x.kind in ('return',)]) is not None]
+    ctx.inst(rule, fcb, 'adopted-before-completion', bool(fin) and not late, 'the cached table is stored before _toc_fetch_finished() runs on the hit branch (stored after it at line %s)' %
+             [n.line for n in late])
 
 
 VARIANTS = [
+    M('R3', TOC, "                self.toc.toc = cache_data\n                logger.info('TOC for port [%s] found in cache' % self.port)\n                self._toc_fetch_finished()\n", "                logger.info('TOC for port [%s] found in cache' % self.port)\n                self._toc_fetch_finished()\n                self.toc.toc = cache_data\n", 'cached table adopted after completion'),
     M('R7', TOC, "        try:\n            return all(isinstance(element, self.element_class)\n                       for group in cache_data.values()\n                       for element in group.values())\n        except AttributeError:\n            return False", "        return all(isinstance(element, self.element_class)\n                   for group in cache_data.values()\n                   for element in group.values())", 'wrong-shaped cache document raises'),
     M('R1', TC, "            except Exception as exp:\n                logger.warning('Error while parsing cache file [%s]:%s',", "            except ValueError as exp:\n                logger.warning('Error while parsing cache file [%s]:%s',", 'narrow handler'),
     M('R1', TC, "        cache_data = None\n        pattern = '%08X.json' % crc", "        cache_data = {}\n        pattern = '%08X.json' % crc", 'result starts non-None'),
